@@ -67,6 +67,32 @@ func (r *replayer) binary(dir string) (string, error) {
 			return "", err
 		}
 	}
+	// import substitutions (environment shims), applied on top of the stub rewrites
+	for _, h := range r.hfs {
+		for _, rw := range h.Imports {
+			files, err := repoGoFiles(rw.Dir)
+			if err != nil {
+				return "", err
+			}
+			for _, f := range files {
+				from := f
+				if t, ok := ov[f]; ok {
+					from = t
+				}
+				src, err := os.ReadFile(from)
+				if err != nil {
+					return "", err
+				}
+				if out, changed := rewriteImport(src, rw.From, rw.To); changed {
+					tmp := filepath.Join(r.scratch, "imp_"+strings.ReplaceAll(strings.TrimPrefix(f, "/"), "/", "_"))
+					if err := os.WriteFile(tmp, out, 0644); err != nil {
+						return "", err
+					}
+					ov[f] = tmp
+				}
+			}
+		}
+	}
 	var tb strings.Builder
 	fmt.Fprintf(&tb, "package %s\n\nimport (\n\t\"fmt\"\n\t\"os\"\n\t\"runtime\"\n\t\"testing\"\n\n\t\"github.com/whatap/golib/zzvf\"\n)\n\n", pkgName)
 	tb.WriteString("func TestZZReplay(t *testing.T) {\n\tfs := map[string]func(){\n")
